@@ -37,7 +37,16 @@ fn create_file(dir_path: &Path, file_number: &FileNumber) -> io::Result<File> {
         .create_new(true)
         .write(true)
         .open(new_filepath)?;
+    #[cfg(feature = "verif-hooks")]
+    crate::verif_hooks::emit(|| crate::verif_hooks::Event::Create {
+        name: file_number.filename(),
+    });
     file.set_len(FILE_NUM_BYTES as u64)?;
+    #[cfg(feature = "verif-hooks")]
+    crate::verif_hooks::emit(|| crate::verif_hooks::Event::SetLen {
+        name: file_number.filename(),
+        len: FILE_NUM_BYTES as u64,
+    });
     file.seek(SeekFrom::Start(0))?;
     Ok(file)
 }
@@ -46,8 +55,14 @@ impl Directory {
     /// Open a `Directory`, or create a new, empty, one. `dir_path` must exist and be a directory.
     pub fn open(dir_path: &Path) -> io::Result<Directory> {
         let mut file_numbers: Vec<u64> = Default::default();
+        #[cfg(feature = "verif-hooks")]
+        crate::verif_hooks::fault(crate::verif_hooks::Site::ReadDir)?;
         for dir_entry_res in std::fs::read_dir(dir_path)? {
+            #[cfg(feature = "verif-hooks")]
+            crate::verif_hooks::fault(crate::verif_hooks::Site::DirEntry)?;
             let dir_entry = dir_entry_res?;
+            #[cfg(feature = "verif-hooks")]
+            crate::verif_hooks::fault(crate::verif_hooks::Site::FileType)?;
             if !dir_entry.file_type()?.is_file() {
                 continue;
             }
@@ -92,6 +107,10 @@ impl Directory {
             let filepath = filepath(&self.dir, &file);
             info!(file=%filepath.display(), "gc remove file");
             std::fs::remove_file(&filepath)?;
+            #[cfg(feature = "verif-hooks")]
+            crate::verif_hooks::emit(|| crate::verif_hooks::Event::Unlink {
+                name: file.filename(),
+            });
         }
         Ok(())
     }
@@ -99,7 +118,13 @@ impl Directory {
     /// Open the wal file with the provided FileNumber.
     pub fn open_file(&self, file_number: &FileNumber) -> io::Result<File> {
         let filepath = filepath(&self.dir, file_number);
+        #[cfg(feature = "verif-hooks")]
+        crate::verif_hooks::fault(crate::verif_hooks::Site::OpenFile)?;
         let mut file = OpenOptions::new().read(true).write(true).open(filepath)?;
+        #[cfg(feature = "verif-hooks")]
+        crate::verif_hooks::emit(|| crate::verif_hooks::Event::OpenFile {
+            name: file_number.filename(),
+        });
         file.seek(SeekFrom::Start(0u64))?;
         Ok(file)
     }
@@ -111,6 +136,8 @@ impl Directory {
         open_opts.read(true);
         let fd = open_opts.open(&self.dir)?;
         fd.sync_data()?;
+        #[cfg(feature = "verif-hooks")]
+        crate::verif_hooks::emit(|| crate::verif_hooks::Event::DirSync);
         Ok(())
     }
 }
@@ -130,6 +157,8 @@ impl RollingReader {
         let first_file = directory.first_file_number().clone();
         let mut file = directory.open_file(&first_file)?;
         let mut block = Box::new([0u8; BLOCK_NUM_BYTES]);
+        #[cfg(feature = "verif-hooks")]
+        crate::verif_hooks::fault(crate::verif_hooks::Site::ReadFirstBlock)?;
         file.read_exact(&mut *block)?;
         Ok(RollingReader {
             file,
@@ -150,6 +179,11 @@ impl RollingReader {
     pub fn into_writer(mut self) -> io::Result<RollingWriter> {
         let offset = self.block_id * crate::BLOCK_NUM_BYTES;
         self.file.seek(SeekFrom::Start(offset as u64))?;
+        #[cfg(feature = "verif-hooks")]
+        crate::verif_hooks::emit(|| crate::verif_hooks::Event::WriterAt {
+            name: self.file_number.filename(),
+            offset: offset as u64,
+        });
         Ok(RollingWriter {
             file: BufWriter::with_capacity(FRAME_NUM_BYTES, self.file),
             offset,
@@ -160,6 +194,8 @@ impl RollingReader {
 }
 
 fn read_block(file: &mut File, block: &mut [u8; BLOCK_NUM_BYTES]) -> io::Result<bool> {
+    #[cfg(feature = "verif-hooks")]
+    crate::verif_hooks::fault(crate::verif_hooks::Site::ReadBlock)?;
     match file.read_exact(block) {
         Ok(()) => Ok(true),
         Err(io_err) if io_err.kind() == io::ErrorKind::UnexpectedEof => Ok(false),
@@ -169,6 +205,8 @@ fn read_block(file: &mut File, block: &mut [u8; BLOCK_NUM_BYTES]) -> io::Result<
 
 impl BlockRead for RollingReader {
     fn next_block(&mut self) -> io::Result<bool> {
+        #[cfg(feature = "verif-hooks")]
+        crate::verif_hooks::step();
         let success = read_block(&mut self.file, &mut self.block)?;
         if success {
             self.block_id += 1;
@@ -218,6 +256,10 @@ impl RollingWriter {
     pub fn forward(&mut self, num_bytes: usize) -> io::Result<()> {
         self.file.seek(SeekFrom::Current(num_bytes as i64))?;
         self.offset += num_bytes;
+        #[cfg(feature = "verif-hooks")]
+        crate::verif_hooks::emit(|| crate::verif_hooks::Event::Forward {
+            num_bytes: num_bytes as u64,
+        });
         Ok(())
     }
 
@@ -245,7 +287,15 @@ impl BlockWrite for RollingWriter {
         assert!(buf.len() <= self.num_bytes_remaining_in_block());
         if self.offset + buf.len() > FILE_NUM_BYTES {
             self.file.flush()?;
+            #[cfg(feature = "verif-hooks")]
+            crate::verif_hooks::emit(|| crate::verif_hooks::Event::Flush {
+                name: self.file_number.filename(),
+            });
             self.file.get_ref().sync_data()?;
+            #[cfg(feature = "verif-hooks")]
+            crate::verif_hooks::emit(|| crate::verif_hooks::Event::Fsync {
+                name: self.file_number.filename(),
+            });
             self.directory.sync_directory()?;
 
             let (file_number, file) =
@@ -263,7 +313,17 @@ impl BlockWrite for RollingWriter {
             self.offset = 0;
         }
         self.offset += buf.len();
+        #[cfg(feature = "verif-hooks")]
+        let verif_buffered_before = self.file.buffer().len();
         self.file.write_all(buf)?;
+        #[cfg(feature = "verif-hooks")]
+        crate::verif_hooks::emit(|| crate::verif_hooks::Event::Write {
+            name: self.file_number.filename(),
+            offset: (self.offset - buf.len()) as u64,
+            bytes: buf.to_vec(),
+            buffered_before: verif_buffered_before,
+            buffered_after: self.file.buffer().len(),
+        });
         Ok(())
     }
 
@@ -271,11 +331,23 @@ impl BlockWrite for RollingWriter {
         match persist_action {
             PersistAction::FlushAndFsync => {
                 self.file.flush()?;
+                #[cfg(feature = "verif-hooks")]
+                crate::verif_hooks::emit(|| crate::verif_hooks::Event::Flush {
+                    name: self.file_number.filename(),
+                });
                 self.file.get_ref().sync_data()?;
+                #[cfg(feature = "verif-hooks")]
+                crate::verif_hooks::emit(|| crate::verif_hooks::Event::Fsync {
+                    name: self.file_number.filename(),
+                });
                 self.directory.sync_directory()
             }
             PersistAction::Flush => {
                 // This will flush the buffer of the BufWriter to the underlying OS.
+                #[cfg(feature = "verif-hooks")]
+                crate::verif_hooks::emit(|| crate::verif_hooks::Event::Flush {
+                    name: self.file_number.filename(),
+                });
                 self.file.flush()
             }
         }
